@@ -740,6 +740,17 @@ def hang_key(prog, at, site):
                                             else "no-interleaving")
 
 
+def rle(polls):
+    """run-length text of a recv_ready() answer sequence, e.g. 'F x100, T x1'"""
+    out = []
+    for v in polls:
+        if out and out[-1][0] == v:
+            out[-1][1] += 1
+        else:
+            out.append([v, 1])
+    return ", ".join("%s x%d" % ("T" if v else "F", n) for v, n in out) or "never polled"
+
+
 def client_programs(tier):
     n = 3 if tier == "quick" else 4
     return [list(p) for p in enum.sequences(STEPS, n, 1)]
@@ -791,7 +802,7 @@ def run_client_chunk(item, acc):
             acc.count("client_distinct_poll_patterns", len({p for p, _ in seen}))
             if len(prog) == 3 and "w101" in prog and len(acc.samples) < 2:
                 acc.sample({"part": "client", "program": prog, "schedules": res.executions,
-                            "recv_ready_patterns": [list(p) for p in sorted({p for p, _ in seen})][:6]})
+                            "recv_ready_answers_seen": [rle(p) for p in sorted({p for p, _ in seen})][:6]})
     finally:
         shutil.rmtree(base, ignore_errors=True)
 
